@@ -1,9 +1,10 @@
-HOOK_COMMITS = ["3a5194c", "1c65365", "5e0ddb3"]
+HOOK_COMMITS = ["3a5194c", "1c65365", "5e0ddb3", "369aa74"]
 NOTES = "All checks: bounded exhaustive exploration driving the real mscript CLI built from /repo's working tree (dev profile, --cfg mscript_verif). Exit 0 = held, 1 = VIOLATION lines, 2 = machinery problem. Known findings: /verif/known_findings.json."
 NOT_CLAIMED = {}
 SERVED = []
 ENGINES = [
- {"name": "mcheck", "path": "/verif/mcheck", "serves_properties": SERVED, "kind_free_text": "Python explicit-state / bounded-exhaustive explorer over the real CLI (layers, dedup, replay, known findings)"},
+ {"name": "mcheck", "path": "/verif/mcheck", "serves_properties": SERVED, "kind_free_text": "Python bounded-exhaustive / explicit-state explorer over the real CLI: E-prog (program-space enumeration against the reference interpreter mcheck/lang/refint.py), E-hist (BFS over operation histories with model-state de-duplication, mcheck/core/ehist.py), E-cfg (abstract machine over emitted bytecode, mcheck/lang/bcmodel.py), E-matrix (input matrices); layers, caps, replay directories, known findings"},
+ {"name": "ffiprobe", "path": "/verif/ffiprobe", "serves_properties": ["C19"], "kind_free_text": "Rust dylib with the documented FFI signature, built against /repo/bytecode in the checks' cargo target dir"},
 ]
 CHECKS["C20"] = dict(
  category="exploration",
